@@ -30,6 +30,7 @@ type Endpoint struct {
 	BlockedWr int // writes currently blocked
 	OnWrite   func(*Rpc)
 	ByRef     bool
+	CheckCtx  bool // Write fails at once when its context is already done
 }
 
 func NewEndpoint(name string) *Endpoint {
@@ -132,6 +133,11 @@ func (e *Endpoint) UnblockWrites() {
 }
 
 func (e *Endpoint) Write(ctx context.Context, r *Rpc) error {
+	if e.CheckCtx {
+		if err := ctx.Err(); err != nil {
+			return err
+		}
+	}
 	for {
 		e.mu.Lock()
 		if e.writeErr != nil {
